@@ -184,11 +184,13 @@ def exec_nesting():
             'for (int i = 0; i < 10; i++) { for (int j = 0; j < 10; j++) { if (i * j == 42) { println(z[i]); } } }',
             'while (a < 5) { a = a + 1; { { int w = z[a + 2]; println(w); } } }', 'int i = 0; while (true) { word[i] = \'y\'; i = i + 1; }',
             'string big2 = "a"; for (int i = 0; i < 12; i++) { big2 = big2 + big2; } big2[5000] = \'x\';',
+            'word = word + word[2]; println(word);', 'word = word + 5; println(word);', "word = word + 'c'; println(word);", 'word = "a" + 1; println(word);', 'word += word[0]; println(word);',
+            'word = word + 2.5; println(word);', 'word = 5 + word; println(word);', 'string t2 = word + a; println(t2);', 'word = word + true; println(word);', 'println(word + zero);',
             'setc(word, 0); println(word);', 'setc(word, 100000); println(word);', 'println(getc(word, 1)); println(getc(word, 9));',
             'println("{z[9]}");', 'println("{a / zero}");', 'println("{word[9]}");', 'string r = "{m[5][5]}"; println(r);',
             'Option<int> o = Option<int>::None; match (o) { Some(v) => { println(v); } }', 'int x = z[z[3] + z[3]];', 'z[z[3] * 2] = z[9];']
     for i, f in enumerate(errs):
-        slug = "emptystr" if f.startswith("empty[") else "strref" if ("setc(" in f or "getc(" in f) else ("strstore" if ("word[" in f and "= '" in f) or "t[5] =" in f or "s.n[4]" in f or "big2[" in f else "other")
+        slug = "emptystr" if f.startswith("empty[") else "strplus" if ("word + " in f or "+ word" in f or "word +=" in f or '"a" + 1' in f) else "strref" if ("setc(" in f or "getc(" in f) else ("strstore" if ("word[" in f and "= '" in f) or "t[5] =" in f or "s.n[4]" in f or "big2[" in f else "other")
         out.append(("exec-error-path-%s-%d" % (slug, i), ep("    %s\n" % f)))
     # struct definitions that share members (diamonds): the cycle check must stay polynomial
     for n in (8, 14, 20, 26, 32):
